@@ -489,6 +489,10 @@ impl Hooks for C16 {
         let other_sig_key = w.parties[other].sk.as_ref().to_vec();
         let mut plans: Vec<(&'static str, Vec<Mutation>)> = vec![
             ("insider_path_too_short", vec![Mutation::PopPathNodes(1)]),
+            // shortened path whose hashes are consistent with the shortened path: the length check
+            // is the only thing an observer has
+            ("insider_path_too_short_consistent_hashes", vec![Mutation::RestoreOldPathNodeFromTop(0), Mutation::PopPathNodes(1)]),
+            ("insider_path_too_short_by_two_consistent_hashes", vec![Mutation::RestoreOldPathNodeFromTop(0), Mutation::RestoreOldPathNodeFromTop(1), Mutation::PopPathNodes(2)]),
             ("insider_path_too_long", vec![Mutation::DuplicateLastPathNode]),
             ("insider_leaf_wrong_parent_hash", vec![Mutation::LeafCorruptParentHash]),
             ("insider_leaf_parent_hash_empty", vec![Mutation::LeafEditParentHash { keep: 0, append: vec![] }]),
